@@ -165,7 +165,13 @@ uint8 CDT_ICACHE_FLASH_ATTR supla_esp_countdown_timer_countdown(
   // restarts its period, so a stream of commands on other channels must not
   // postpone them. The new timer is set up afterwards, so that the time the
   // finish callbacks take is not counted against it.
-  supla_esp_countdown_timer_cb(NULL);
+  // Not before the finish callback is registered (supla_esp_devconn_init /
+  // supla_esp_mqtt_init run after supla_esp_gpio_init): a timer restored with
+  // a few milliseconds left would expire inside the restore loop, be released
+  // without its callback and leave the relay in the saved state for ever.
+  if (countdown_timer_vars.finish_cb) {
+    supla_esp_countdown_timer_cb(NULL);
+  }
 
   _t_countdown_timer_item *i = NULL;
   uint8 a;
